@@ -215,8 +215,13 @@ pub fn fresh() -> Result<Live, String> {
     Ok(Live { client: c.client.unwrap(), sh: c.sh, ref_state: 0, ref_share: 0, window_opened: 0 })
 }
 
-fn pointer() -> RdpEvent {
-    RdpEvent::Pointer(PointerEvent { x: 3, y: 4, button: PointerButton::Left, down: true })
+/// the three kinds of input a user produces: a click, a pointer move, a key
+fn probe_event(k: usize) -> RdpEvent {
+    match k {
+        0 => RdpEvent::Pointer(PointerEvent { x: 3, y: 4, button: PointerButton::Left, down: true }),
+        1 => RdpEvent::Pointer(PointerEvent { x: 5, y: 6, button: PointerButton::None, down: false }),
+        _ => RdpEvent::Key(rdp::core::event::KeyboardEvent { code: 0x1E, down: true }),
+    }
 }
 
 /// execute one event on the live client and check every clause of the property. Err(sig, detail) on violation.
@@ -313,9 +318,9 @@ pub fn step(l: &mut Live, ev: usize) -> Result<Key, (String, String)> {
         l.window_opened += 1;
     }
     // (c)/(d) input probe with both write flavours
-    for lenient in [false, true] {
+    for (lenient, pk) in [(false, 0usize), (true, 0), (false, 1), (true, 1), (false, 2), (true, 2)] {
         let b0 = l.sh.borrow().from_client.len();
-        let wr = if lenient { l.client.try_write(pointer()) } else { l.client.write(pointer()) };
+        let wr = if lenient { l.client.try_write(probe_event(pk)) } else { l.client.write(probe_event(pk)) };
         let bytes = l.sh.borrow().from_client[b0..].to_vec();
         let sent = decode_client_bytes(&bytes);
         if post == 5 {
@@ -497,7 +502,7 @@ impl C12Histories {
     }
     pub fn blocks_for(tier: Tier) -> Vec<(Vec<u8>, usize)> {
         let reactivated: Vec<u8> = ACT_A.iter().chain([9u8].iter()).chain(ACT_B.iter()).copied().collect();
-        let d = if tier == Tier::Quick { [5, 4, 3] } else { [6, 5, 4] };
+        let d = if tier == Tier::Quick { [5, 4, 3] } else { [7, 5, 5] };
         let mut v = vec![(vec![], d[0]), (ACT_A.to_vec(), d[1]), (reactivated, d[2])];
         // many activation / deactivation cycles on one connection (state that only accumulates shows late), each
         // followed by every single letter, and by every pair after 40 cycles
@@ -562,7 +567,7 @@ impl Prop for C12Histories {
         json!({"idx": idx, "history": h.iter().map(|e| EVENTS[*e as usize]).collect::<Vec<_>>()})
     }
     fn rule(&self) -> String {
-        "every history of server PDUs of length <= depth over the 12-letter alphabet, replayed on a fresh real client with an input attempt (write and try_write) after every step, from three starting points: the fresh client (depth 5, 6 in thorough), a client that completed an activation (depth 4 / 5), and a client that completed an activation, was deactivated and completed a second activation with another share id (depth 3 / 4); and clients that went through 3, 8, 16, 33, 40 or 70 activation / deactivation cycles (depth 1; 2 after 40 cycles); the prefixes are executed and checked like any other step; non-trivial: histories in which the input window opens at least once".into()
+        "every history of server PDUs of length <= depth over the 12-letter alphabet, replayed on a fresh real client with three input attempts (a click, a pointer move, a key; each through write and try_write) after every step, from three starting points: the fresh client (depth 5, 7 in thorough), a client that completed an activation (depth 4 / 5), and a client that completed an activation, was deactivated and completed a second activation with another share id (depth 3 / 5); and clients that went through 3, 8, 16, 33, 40 or 70 activation / deactivation cycles (depth 1; 2 after 40 cycles); the prefixes are executed and checked like any other step; non-trivial: histories in which the input window opens at least once".into()
     }
     fn assumptions(&self) -> Vec<String> {
         vec![]
